@@ -1,7 +1,7 @@
 (* Props/C12.v — property C12: a glob set answers like its member globs; globs mean what is documented.
    Only statements; every proof is one `exact`.  The Check lines pin the statements. *)
-From RG Require Import Base.Bytes Model.Glob Model.GlobSet Spec.GlobSem Spec.GlobSetSem
-  Proofs.GlobStrategyProofs Proofs.GlobSetProofs Proofs.GlobSetIsMatchProofs Proofs.GlobParseProofs.
+From RG Require Import Base.Bytes Model.Glob Model.GlobSet Spec.GlobSem Spec.GlobSetSem Spec.GlobSyntax
+  Proofs.GlobStrategyProofs Proofs.GlobSetProofs Proofs.GlobSetIsMatchProofs Proofs.GlobParseProofs Proofs.GlobRenderProofs.
 
 (* 1. every match strategy answers as the glob's regex: for all token lists (parser-produced or not),
       all four options, all paths (arbitrary bytes), the strategy MatchStrategy::new selects, evaluated
@@ -59,6 +59,29 @@ Theorem parse_total_never_panics :
 Proof. exact build_total. Qed.
 Print Assumptions parse_total_never_panics.
 
+(* 5. the parser reads the documented syntax as documented: for every glob of the documented (alternate-free)
+      syntax — a '/'-separated list of pieces, each a component of literal characters (plain or backslash-
+      escaped), `?`, `*` and bracket classes (characters and ranges), or `**` (whole component, never twice in a
+      row) — the parser applied to its text yields exactly the documented tokens: `**/` in front = RecursivePrefix,
+      `/**` at the end = RecursiveSuffix, `/**/` = RecursiveZeroOrMore, the glob `**` = everything, `*` `?`
+      classes and literals one token each (backslash_escape on; any case / separator options).  Together with
+      tmatch (the construct-by-construct meaning of those tokens) and, for literal_separator, the component-level
+      reading proved in Props/C04.v (gitignore_pattern_eq_git), this is the statement behind the
+      "documented syntax" oracle.  Alternates `{a,b}` are not covered by this theorem (tested only). *)
+Theorem parse_documented_syntax :
+  forall (o : gopts) (ps : list gpiece),
+    backslash_escape o = true -> glob_ok ps = true ->
+    build o (render_glob ps) = Some (Ok (glob_tokens ps)).
+Proof. exact build_render_proof. Qed.
+Print Assumptions parse_documented_syntax.
+
+Example ex_documented_syntax :
+  let g := [PDStar; PComp [IPlain 97; IStar; IClass [(98, 100); (46, 46)]%N]; PDStar; PComp [IEsc 42; IAny]; PDStar] in
+  glob_ok g = true /\
+  render_glob g = [42;42;47; 97;42;91;98;45;100;46;93; 47;42;42;47; 92;42;63; 47;42;42]%N /\
+  glob_tokens g = [TRecPrefix; TLit 97; TStar; TClass false [(98, 100); (46, 46)]%N; TRecZeroOrMore; TLit 42; TAny; TRecSuffix].
+Proof. vm_compute. auto. Qed.
+
 (* non-vacuity: `**/*.a` parses to [RecursivePrefix, ZeroOrMore, '.', 'a'], selects the Extension
    strategy and matches "b/x.a"; the set {*.a, b/x.a, a/**/b} reports [0;1] for "b/x.a" *)
 Example ex_parse :
@@ -89,3 +112,7 @@ Check parse_total_never_panics :
 Check set_is_match_eq_exists :
   forall (gs : list glob) (p : bytes),
     set_is_match re_spec gs p = existsb (fun g => tmatch (g_opts g) (g_tokens g) p) gs.
+Check parse_documented_syntax :
+  forall (o : gopts) (ps : list gpiece),
+    backslash_escape o = true -> glob_ok ps = true ->
+    build o (render_glob ps) = Some (Ok (glob_tokens ps)).
